@@ -78,11 +78,11 @@ def run_native(exe, fns, inputs=None, seed=1, perturb=None, derivs=None, timeout
     elif rc == 134: res['crash'] = 'abort'
     return res
 
-def replay(harness_file, fns, inputs, seed=1, omp=False):
+def replay(harness_file, fns, inputs, seed=1, omp=False, timeout=120):
     """full native replay including finite-difference evaluation of derivative obligations.
     returns dict with 'failed' = set of labels that fail natively, 'crash'"""
     exe = build.native_harness(harness_file, omp)
-    base = run_native(exe, fns, inputs, seed)
+    base = run_native(exe, fns, inputs, seed, timeout=timeout)
     failed = set(l for l, ok in base['asserts'].items() if not ok)
     info = {'rc': base['rc'], 'crash': base['crash'], 'stderr': base['stderr'][-600:], 'outs': base['outs']}
     vars_ = sorted(set(v for (_, v, _, _) in base['derivs']) | set(v for (_, v, _) in base['sites']))
